@@ -75,3 +75,98 @@ def wsdl_request(sx, transport):
         problems.append('wsdl request not answered with 200')
     sx.observe('problems', problems)
     return not problems
+
+
+# ---------------------------------------------------------------- streaming results and client aborts
+from spyne import Application, Service, rpc
+from spyne.model.primitive import Integer
+from spyne.model.complex import Iterable as SpIterable
+from spyne.protocol.json import JsonDocument
+from spyne.protocol.http import HttpRpc
+from spyne.protocol.xml import XmlDocument
+
+GEN = {}
+
+
+class StreamSvc(Service):
+    @rpc(Integer, _returns=SpIterable(Integer))
+    def count(ctx, n):
+        GEN['started'] = GEN.get('started', 0) + 1
+        for i in range(n or 0):
+            yield i
+
+
+SAPPS = {}
+
+
+@harness('C13', params=[(pair, tr) for pair in ('http-json', 'json-json', 'xml-xml') for tr in ('wsgi-chunked', 'wsgi-unchunked')],
+         label=lambda p: '%s %s' % p,
+         functions=['spyne.server.wsgi.WsgiApplication.handle_rpc', 'spyne.server.wsgi.WsgiApplication.__finalize'],
+         bounds={'schedule': 'generator result yielding 0..2 items; client consumes the whole body or closes the iterator '
+                             'after 0 or 1 chunks'})
+def streaming_and_abort(sx, p):
+    """generator results: same response protocol (one start_response before the body, bytes chunks, 200 for a call that
+    succeeds), the user generator is started once, and an aborting client does not cause a second close"""
+    import io
+    from spyne.server.wsgi import WsgiApplication
+    pair, transport = p
+    if pair not in SAPPS:
+        inp, outp = {'http-json': (HttpRpc(), JsonDocument()), 'json-json': (JsonDocument(), JsonDocument()),
+                     'xml-xml': (XmlDocument(), XmlDocument())}[pair]
+        SAPPS[pair] = Application([StreamSvc], 'tns', in_protocol=inp, out_protocol=outp)
+    app = SAPPS[pair]
+    w = WsgiApplication(app, chunked=(transport == 'wsgi-chunked'))
+    n = sx.choose('n_items', [2, 0, 1])
+    abort = sx.choose('abort_after', [None, 0, 1])
+    GEN.clear()
+    body = {'http-json': b'', 'json-json': ('{"count": {"n": %d}}' % n).encode(),
+            'xml-xml': ('<count xmlns="tns"><n>%d</n></count>' % n).encode()}[pair]
+    environ = {'REQUEST_METHOD': 'POST', 'PATH_INFO': '/', 'QUERY_STRING': '', 'SERVER_NAME': 'localhost',
+               'SERVER_PORT': '80', 'wsgi.url_scheme': 'http', 'wsgi.input': io.BytesIO(body),
+               'CONTENT_LENGTH': str(len(body)), 'CONTENT_TYPE': 'text/plain'}
+    if pair == 'http-json':
+        environ.update(REQUEST_METHOD='GET', PATH_INFO='/count', QUERY_STRING='n=%d' % n)
+    rec = P.Record()
+    closed = []
+    app.event_manager.add_listener('method_context_closed', closed.append)
+
+    def start_response(status, headers, exc_info=None):
+        rec.start_response.append((status, headers, len(rec.chunks)))
+    try:
+        it = w(environ, start_response)
+        rec.extra['iter_started_with_start_response'] = len(rec.start_response)
+        for chunk in it:
+            if abort is not None and len(rec.chunks) >= abort:
+                break
+            rec.chunks.append(chunk)
+        if hasattr(it, 'close'):
+            it.close()
+    except Exception as e:
+        rec.escaped = e
+    finally:
+        app.event_manager.handlers['method_context_closed'].remove(closed.append)
+    rec.extra['closed'] = [len(rec.chunks)] * len(closed)
+    problems = O.check_wsgi({'proto': pair}, rec, allow_eager_close=True)
+    problems = [x for x in problems if not (abort is not None and x.startswith('Content-Length'))]
+    if rec.start_response and not rec.start_response[0][0].startswith('200'):
+        problems.append('status %s for a successful streaming call' % rec.start_response[0][0])
+    if GEN.get('started', 0) > 1:
+        problems.append('user generator started %d times' % GEN['started'])
+    if abort is None and rec.escaped is None:
+        data = b''.join(rec.chunks)
+        want = list(range(n))
+        import json as _j
+        try:
+            if pair.endswith('json'):
+                got = _j.loads(data.decode('utf8'))
+                if got != want and not (n == 0 and got in (None, [], {})):
+                    problems.append('streamed body denotes %r, expected %r' % (got, want))
+            else:
+                from lxml import etree
+                got = [int(e.text) for e in etree.fromstring(data).iter() if e.text and e.text.strip().isdigit()]
+                if got != want:
+                    problems.append('streamed body denotes %r, expected %r' % (got, want))
+        except Exception as e:
+            problems.append('unparsable streamed body: %r' % (e,))
+    sx.observe('problems', problems)
+    return not problems
